@@ -10,7 +10,7 @@ use digest::core_api::BlockSizeUser;
 use digest::{FixedOutput, HashMarker};
 use elliptic_curve::group::cofactor::CofactorGroup;
 use elliptic_curve::hash2curve::{ExpandMsgXmd, FromOkm, GroupDigest};
-use elliptic_curve::sec1::{FromEncodedPoint, ModulusSize, ToEncodedPoint};
+use elliptic_curve::sec1::{EncodedPoint, FromEncodedPoint, ModulusSize, ToEncodedPoint};
 use elliptic_curve::{
     AffinePoint, Field, FieldBytesSize, Group, ProjectivePoint, PublicKey, Scalar, SecretKey,
 };
@@ -42,9 +42,17 @@ where
     }
 
     fn deserialize_pk(bytes: &[u8]) -> Result<Self::Pk, InternalError> {
-        PublicKey::<Self>::from_sec1_bytes(bytes)
+        // Only the compressed SEC1 encoding produced by `serialize_pk` is accepted, so
+        // that a public key has exactly one valid encoding.
+        let encoded_point =
+            EncodedPoint::<Self>::from_bytes(bytes).map_err(|_| InternalError::PointError)?;
+        if !encoded_point.is_compressed() {
+            return Err(InternalError::PointError);
+        }
+
+        Option::<PublicKey<Self>>::from(PublicKey::<Self>::from_encoded_point(&encoded_point))
             .map(|public_key| public_key.to_projective())
-            .map_err(|_| InternalError::PointError)
+            .ok_or(InternalError::PointError)
     }
 
     fn random_sk<R: RngCore + CryptoRng>(rng: &mut R) -> Self::Sk {
